@@ -32,6 +32,10 @@ CONFIGS = [
     # class (--unique), or no contents stage at all (--skip-content-hash: classes by size, prefix and suffix)
     {"kind": "ssd", "fs": "ext4", "threads": None, "rf": ("unique", None)},
     {"kind": "ssd", "fs": "ext4", "threads": None, "skip_content_hash": True},
+    # an external transform that reads the file itself ($IN with --no-copy) and hands its output over through $OUT:
+    # the faults then hit the child process (the interposer is inherited), which gives up with a non-zero status
+    {"kind": "ssd", "fs": "ext4", "threads": None, "transform": "in_out_dd", "no_copy": True},
+    {"kind": "hdd", "fs": "ext4", "threads": ["default:3,3"], "transform": "in_cat", "no_copy": True},
 ]
 
 # with "inputs": "stdin" the same files are handed over as a list of directories and single files on standard input
@@ -71,12 +75,33 @@ def scenario_spec(si):
 
 def run_group(cfg, troot, home, plan, log, inputs=None):
     o = {"hash_fn": "metro", "kind": cfg["kind"], "threads": cfg["threads"], "rf": cfg.get("rf"),
-         "skip_content_hash": cfg.get("skip_content_hash")}
-    env = shimlog.shim_env(log, [troot], plan)
+         "skip_content_hash": cfg.get("skip_content_hash"), "transform": cfg.get("transform"), "no_copy": cfg.get("no_copy")}
+    env = gm.env_for(o, home, shimlog.shim_env(log, [troot], plan))
+    extra, stdin, roots = ([], None, ["r0"])
     if inputs:
-        return gm.run_group(o, [], troot, home, extra_args=["--stdin"], stdin=("\n".join(inputs) + "\n").encode(),
-                            extra_env=env, timeout=60)
-    return gm.run_group(o, ["r0"], troot, home, extra_env=env, timeout=60)
+        extra, stdin, roots = (["--stdin"], ("\n".join(inputs) + "\n").encode(), [])
+    argv = [fse(common.fclones_bin())] + gm.group_argv(o, roots, "json", extra)
+    return run_watched(argv, env, troot, stdin), argv
+
+
+def run_watched(argv, env, cwd, stdin, timeout=40):
+    """Like common.run, but a run that does not end is examined before it is killed: all threads asleep and no
+    CPU progress means it hangs (a violation: 'the run still finishes'), anything else is inconclusive."""
+    import subprocess
+    p = subprocess.Popen(argv, env=env, cwd=cwd, stdin=subprocess.PIPE, stdout=subprocess.PIPE, stderr=subprocess.PIPE)
+    import time
+    t0 = time.time()
+    try:
+        out, err = p.communicate(stdin if stdin is not None else b"", timeout=timeout)
+        res = common.RunResult(p.returncode, out, err, time.time() - t0)
+        res.hung = False
+    except subprocess.TimeoutExpired:
+        hung = common.process_quiescent(p.pid)
+        p.kill()
+        out, err = p.communicate()
+        res = common.RunResult(None, out, err, time.time() - t0, timed_out=True)
+        res.hung = hung
+    return res
 
 
 def coarse_key(p):
@@ -157,7 +182,10 @@ def run_case(arg):
                 continue  # probes for ignore files etc.
             for nth in range(1, n + 1):
                 for en in ERRNOS:
-                    if op == "open":
+                    if op == "open" and cfg.get("transform"):
+                        if nth == 1:
+                            specs.append((p, "open-child", 1, en, None))
+                    elif op == "open":
                         kind = (open_kinds.get(p) or ["hash"] * n)[nth - 1]
                         specs.append((p, "open-" + kind, nth, en, None))
                     else:
@@ -200,6 +228,10 @@ def _one(cfg, ci, si, troot, home, d, files, full, sp, inputs=None, mo=None):
                                                        "second": [fsd(second[0])] + list(second[1:]) if second else None},
                "argv": [fsd(a) for a in argv], "rc": res.rc, "stderr": res.err_text()[-2500:], "fired": fired}
     if res.timed_out:
+        if getattr(res, "hung", False):
+            return violation("C15:%s@%s:%s:run-hangs" % ("dir" if is_dir else "file", op, errno.errorcode[en]),
+                             "group does not finish after %s on %s (%s #%d): all threads asleep, no progress"
+                             % (errno.errorcode[en], fsd(X), op, nth), witness, sig=(ci, "hang"))
         return inconclusive("group timed out under fault")
     if len(fired) < len(rules):
         return inconclusive("planned fault never fired")
